@@ -59,6 +59,11 @@ def split_obs(v):
 
 
 def classify(kind, case, detail):
+    if kind == "metamorphic" and case.get("transform") == "supercell" and "hydrogen-bond counts" in str(detail):
+        # an atom is never paired with its own periodic image: in a cell with a lattice vector shorter than the A..B cut-off (3.5 A) a supercell shows
+        # hydrogen bonds between what were images of one atom
+        if lc.brute_min([tuple(r) for r in case["L"]], (True, True, True), (0, 0, 0), True) <= 12.25 + 1e-9:
+            return "C05-F05a"
     return None
 
 
@@ -92,6 +97,9 @@ def observables(a):
     if n > 1:
         dc = DipolarCoupling.get(a)
         out["dipolar"] = sorted((min(a[int(i)].symbol, a[int(j)].symbol), max(a[int(i)].symbol, a[int(j)].symbol), round(float(d) / 1e0, 3)) for (i, j), (d, v) in dc.items())
+    # couplings of every nucleus with its own nearest periodic copy (self_coupling=True): a per-site value
+    dcs = DipolarCoupling.get(a, self_coupling=True)
+    out["dipolar_self"] = sorted((a[int(i)].symbol, round(float(d), 3)) for (i, j), (d, v) in dcs.items() if int(i) == int(j))
     rss = DipolarRSS.get(a, cutoff=5.03)
     out["rss"] = sorted((a[i].symbol, round(float(r), 2)) for i, r in enumerate(rss))
     rssi = DipolarRSS.get(a, cutoff=9.03, isonuclear=True)        # cutoff longer than the shortest lattice vectors: own periodic copies count
@@ -148,11 +156,24 @@ def run(ctx):
     ctx.rule = ("fully periodic structures of 2-6 atoms with integer coordinates on ortho / sheared / general cells x {rigid translation by dyadics, the 48 signed-"
                 "permutation rotations and generic rotations of structure + cell, per-atom lattice shifts in [-3,3]^3, atom permutations, 12 unimodular integer cell "
                 "transformations, supercells up to 2x2x2} x {LinkageList, Bonds (lengths, element pairs), molecule count and masses, hydrogen-bond counts, dipolar "
-                "couplings, dipolar RSS, periodic sphere selection}")
+                "couplings (incl. each nucleus with its own nearest copy), dipolar RSS, periodic sphere selection}")
     ctx.trusted += ["the invariance theorems are about the specifications (images, minimum image) the exactness theorems of C03/C04/C07/C11 are stated against; the "
                     "code's observables are tied to them by this metamorphic run on the real API (exact transformations, results compared after relabelling)",
                     "extensive counts under supercells (bonds, molecules, hydrogen bonds x n) and the distinct-distance set are differential tests only"]
     ctx.build_props()
+    for k_ in ctx.known:            # corpus: witnesses of recorded findings
+        w_ = k_.get("witness") or {}
+        if w_.get("kind") == "metamorphic" and w_["case"].get("transform") == "supercell":
+            c_ = w_["case"]
+            ctx.evaluations += 1
+            try:
+                ob_ = observables(mk(c_["syms"], c_["pos"], c_["L"]))
+                ov_ = observables(mk(c_["syms"], c_["pos"], c_["L"]).repeat(tuple(c_["rep"])))
+                mult_ = int(np.prod(c_["rep"]))
+                if isinstance(ob_["hbonds"], dict) and isinstance(ov_["hbonds"], dict) and any(ov_["hbonds"].get(kk, 0) != mult_ * vv for kk, vv in ob_["hbonds"].items()):
+                    ctx.fail_input("metamorphic", c_, "supercell %s: hydrogen-bond counts %s -> %s (x%d expected) [%s]" % (c_["rep"], ob_["hbonds"], ov_["hbonds"], mult_, k_["id"]), classify)
+            except Exception as e:
+                ctx.fail_input("metamorphic", c_, "witness of %s raised %s: %s" % (k_["id"], type(e).__name__, str(e)[:160]), classify)
     N = 90 if quick else 1200
     for t in range(N):
         kind = ["ortho", "sheared", "general"][t % 3]
@@ -248,6 +269,31 @@ def run(ctx):
         ctx.evaluations += 1
         if not np.allclose(LatticeABC.get(a1), LatticeABC.get(a2), atol=1e-9):
             ctx.fail_input("metamorphic", dict(L=[list(r) for r in L], transform="rotate-exact", Q=Q.tolist()), "LatticeABC changes under a rigid rotation of the cell", classify)
+    # ---- tight clusters in roomy cells, re-described by unimodular matrices after which the shortest lattice vector is no +-1 combination of the rows:
+    #      the couplings of each nucleus with its own nearest copy, the pair couplings and the RSS must not notice
+    NONRED = [((1, 1, 0), (1, 2, 0), (0, 0, 1)), ((2, 1, 0), (3, 2, 0), (0, 0, 1)), ((1, 0, 1), (0, 1, 0), (1, 0, 2)), ((1, 2, 0), (1, 3, 0), (0, 0, 1)),
+              ((1, 0, 0), (0, 2, 1), (0, 3, 2)), ((3, 1, 0), (2, 1, 0), (0, 0, 1))]
+    for t_ in range(12 if quick else 150):
+        L = lc.gen_lattice(rng, ["ortho", "sheared"][t_ % 2])
+        Lm = np.array(L, float)
+        if abs(np.linalg.det(Lm)) < 100 or lc.brute_min(L, (True, True, True), (0, 0, 0), True) <= 16:
+            continue
+        n = rng.randint(2, 3)
+        p0 = [rng.randint(-3, 3) for _ in range(3)]
+        pos = [tuple(p0)] + [tuple(p0[k] + d_[k] for k in range(3)) for d_ in rng.sample([(1, 0, 0), (0, 1, 0), (0, 0, 1), (1, 1, 0), (0, 1, 1), (-1, 0, 1)], n - 1)]
+        syms = [rng.choice(["H", "H", "C", "N"]) for _ in range(n)]
+        U = np.array(NONRED[t_ % len(NONRED)])
+        case_ = dict(L=[list(r) for r in L], pos=[list(p) for p in pos], syms=syms, transform="unimodular-nonreduced", U=U.tolist())
+        ctx.evaluations += 1
+        try:
+            ob_, ov_ = observables(mk(syms, pos, L)), observables(mk(syms, pos, U @ Lm))
+        except Exception as e:
+            ctx.fail_input("metamorphic", case_, "observables raised %s: %s" % (type(e).__name__, str(e)[:160]), classify)
+            continue
+        k_ = diff(ob_, ov_, [k for k in ob_ if k != "all_finite" and not k.startswith("_")])
+        ctx.seen(("unimodular-nonreduced", t_ % len(NONRED), k_ is None))
+        if k_:
+            ctx.fail_input("metamorphic", case_, "unimodular re-description %s changes %s: %s -> %s" % (U.tolist(), k_, str(ob_[k_])[:150], str(ov_[k_])[:150]), classify)
     # ---- the Coq models of C03/C04 on two representations of the same crystal, against the real API on both
     okm = ctx.build_models(["model/Bonds.vo"])
     exprs, wants, metas = [], [], []
